@@ -358,20 +358,30 @@ func checkReaperKeepsSelf(c *Ctx) {
 				continue
 			}
 			n++
-			// the delete must sit under a condition excluding the configured name
-			ok := false
+			// every path to the delete has compared the deleted key with the configured name and
+			// found them different (read from the exploration, so the test may be spelled any way)
+			x := c.flow(fn, map[string]string{})
+			ok := true
 			key := p.Canon(s.Call.Args[1])
-			for cur := p.Parent(s.Node); cur != nil; cur = p.Parent(cur) {
-				if ifs, isIf := cur.(*ast.IfStmt); isIf {
-					cond := p.Canon(ifs.Cond)
-					inThen := s.Pos >= ifs.Body.Pos() && s.Pos <= ifs.Body.End()
-					if inThen && (cond == "("+key+"!=m#"+lineOf(p, fn)+".config.Name)" || (strings.Contains(cond, key+"!=") && strings.Contains(cond, ".config.Name"))) {
-						ok = true
-					}
+			seen := 0
+			for _, e := range x.Effects {
+				if e.Class != "MAPDEL:Memberlist.nodeMap" || e.Pos != s.Pos {
+					continue
 				}
-				if _, isFn := cur.(*ast.FuncDecl); isFn {
-					break
+				seen++
+				kv := e.Detail["key"]
+				eq := ""
+				if kv < "m.config.Name" {
+					eq = e.Cube["eq("+kv+",m.config.Name)"]
+				} else {
+					eq = e.Cube["eq(m.config.Name,"+kv+")"]
 				}
+				if eq != "F" {
+					ok = false
+				}
+			}
+			if seen == 0 {
+				ok = false
 			}
 			c.Check("C20/self-record-kept/"+fn.Name, rule, s.Pos, ok, "name-table delete of "+norm(key)+" is not guarded against the local name: after Leave and one reaping pass LocalNode / UpdateNode dereference a nil record")
 		}
